@@ -26,7 +26,7 @@ NSHARDS = 16
 
 def plan(tier, seed):
     if tier == "quick":
-        return [{"triples": 100, "cfgs": 4, "file_every": 12, "timeout": 900} for i in range(NSHARDS)]
+        return [{"triples": 250, "cfgs": 4, "file_every": 12, "timeout": 900} for i in range(NSHARDS)]
     return [{"triples": 1600, "cfgs": 6, "file_every": 25, "timeout": 3000} for i in range(NSHARDS)]
 
 
